@@ -10,6 +10,7 @@
 From Coq Require Import List NArith Bool.
 From V Require Proofs.ExprsTie3.  (* whole-word regimes, fill_symmetric, text widths: regenerated from the Rust source, equal the model's *)
 From V Require Proofs.ExprsTie.   (* the kernels' word-level expressions, regenerated from the Rust source, equal the model's *)
+From V Require Import Checkers.Check Proofs.CheckSoundDecomp.   (* the extracted checkers and their soundness proofs, pinned at the end of this file *)
 From V Require Import Base.Res Model.Kernels Model.Decomp Model.Api Spec.Bfun Proofs.ApiTransforms Proofs.DecompProofs.
 Import ListNotations.
 Open Scope N_scope.
@@ -274,3 +275,105 @@ Print Assumptions C06_is_xor_type.
 Print Assumptions C06_is_simple_gate.
 Print Assumptions C06_classes_partition.
 Print Assumptions C06_top_classes.
+
+
+(* ---- soundness of the extracted checkers that decide this property's statement on the implementation's results *)
+Theorem C06_checker_spec_top_iff_explicit : forall n t v d,
+  spec_top n t v = d <->
+    (d = DIndependent <-> Indep n t v) /\
+    (d = DIdentity <-> ~ Indep n t v /\ (Zero0 n t v /\ One1 n t v)) /\
+    (d = DNegation <-> ~ Indep n t v /\ ~ (Zero0 n t v /\ One1 n t v) /\ (One0 n t v /\ Zero1 n t v)) /\
+    (d = DAnd <-> ~ Indep n t v /\ ~ (Zero0 n t v /\ One1 n t v) /\ ~ (One0 n t v /\ Zero1 n t v) /\ Zero0 n t v) /\
+    (d = DOr <-> ~ Indep n t v /\ ~ (Zero0 n t v /\ One1 n t v) /\ ~ (One0 n t v /\ Zero1 n t v) /\
+                 ~ Zero0 n t v /\ One1 n t v) /\
+    (d = DLe <-> ~ Indep n t v /\ ~ (Zero0 n t v /\ One1 n t v) /\ ~ (One0 n t v /\ Zero1 n t v) /\
+                 ~ Zero0 n t v /\ ~ One1 n t v /\ One0 n t v) /\
+    (d = DLt <-> ~ Indep n t v /\ ~ (Zero0 n t v /\ One1 n t v) /\ ~ (One0 n t v /\ Zero1 n t v) /\
+                 ~ Zero0 n t v /\ ~ One1 n t v /\ ~ One0 n t v /\ Zero1 n t v) /\
+    (d = DXor <-> ~ Indep n t v /\ ~ (Zero0 n t v /\ One1 n t v) /\ ~ (One0 n t v /\ Zero1 n t v) /\
+                  ~ Zero0 n t v /\ ~ One1 n t v /\ ~ One0 n t v /\ ~ Zero1 n t v /\ Xr n t v) /\
+    (d = DNone <-> ~ Indep n t v /\ ~ (Zero0 n t v /\ One1 n t v) /\ ~ (One0 n t v /\ Zero1 n t v) /\
+                   ~ Zero0 n t v /\ ~ One1 n t v /\ ~ One0 n t v /\ ~ Zero1 n t v /\ ~ Xr n t v).
+Proof. exact CheckSoundDecomp.spec_top_iff_explicit. Qed.
+
+Theorem C06_checker_spec_top_sound : forall n t v,
+  wf n t -> v < N.of_nat n -> top_decomposition n t v = Ok (spec_top n t v).
+Proof. exact CheckSoundDecomp.spec_top_sound. Qed.
+
+Theorem C06_checker_spec_top_complete : forall n t v d,
+  wf n t -> v < N.of_nat n ->
+  (top_decomposition n t v = Ok d <-> spec_top n t v = d).
+Proof. exact CheckSoundDecomp.spec_top_complete. Qed.
+
+Theorem C06_checker_D_spec_top_sound : forall l v,
+  lwf l -> v < N.of_nat (nv l) ->
+  D_top_decomposition l v = Ok (spec_top (nv l) (tbl l) v).
+Proof. exact CheckSoundDecomp.D_spec_top_sound. Qed.
+
+Theorem C06_checker_D_spec_top_complete : forall l v d,
+  lwf l -> v < N.of_nat (nv l) ->
+  (D_top_decomposition l v = Ok d <-> spec_top (nv l) (tbl l) v = d).
+Proof. exact CheckSoundDecomp.D_spec_top_complete. Qed.
+
+Theorem C06_checker_decomp_eqb_iff : forall a b,
+  decomp_eqb a b = true <-> a = b.
+Proof. exact CheckSoundDecomp.decomp_eqb_iff. Qed.
+
+Theorem C06_checker_decomp_check_model : forall n t v d,
+  wf n t -> v < N.of_nat n ->
+  (decomp_eqb d (spec_top n t v) = true <-> top_decomposition n t v = Ok d).
+Proof. exact CheckSoundDecomp.decomp_check_model. Qed.
+
+Theorem C06_checker_spec_pos_unate_iff : forall n t v,
+  spec_pos_unate n t v = true <-> forall m, m < 2 ^ N.of_nat n -> c0 t v m = true -> c1 t v m = true.
+Proof. exact CheckSoundDecomp.spec_pos_unate_iff. Qed.
+
+Theorem C06_checker_spec_neg_unate_iff : forall n t v,
+  spec_neg_unate n t v = true <-> forall m, m < 2 ^ N.of_nat n -> c1 t v m = true -> c0 t v m = true.
+Proof. exact CheckSoundDecomp.spec_neg_unate_iff. Qed.
+
+Theorem C06_checker_spec_pos_unate_sound : forall n t v,
+  wf n t -> v < N.of_nat n ->
+  input_pos_unate n t v = Ok (spec_pos_unate n t v).
+Proof. exact CheckSoundDecomp.spec_pos_unate_sound. Qed.
+
+Theorem C06_checker_spec_neg_unate_sound : forall n t v,
+  wf n t -> v < N.of_nat n ->
+  input_neg_unate n t v = Ok (spec_neg_unate n t v).
+Proof. exact CheckSoundDecomp.spec_neg_unate_sound. Qed.
+
+Theorem C06_checker_spec_pos_unate_complete : forall n t v b,
+  wf n t -> v < N.of_nat n ->
+  (input_pos_unate n t v = Ok b <-> spec_pos_unate n t v = b).
+Proof. exact CheckSoundDecomp.spec_pos_unate_complete. Qed.
+
+Theorem C06_checker_spec_neg_unate_complete : forall n t v b,
+  wf n t -> v < N.of_nat n ->
+  (input_neg_unate n t v = Ok b <-> spec_neg_unate n t v = b).
+Proof. exact CheckSoundDecomp.spec_neg_unate_complete. Qed.
+
+Theorem C06_checker_D_spec_pos_unate_sound : forall l v,
+  lwf l -> v < N.of_nat (nv l) ->
+  D_is_pos_unate l v = Ok (spec_pos_unate (nv l) (tbl l) v).
+Proof. exact CheckSoundDecomp.D_spec_pos_unate_sound. Qed.
+
+Theorem C06_checker_D_spec_neg_unate_sound : forall l v,
+  lwf l -> v < N.of_nat (nv l) ->
+  D_is_neg_unate l v = Ok (spec_neg_unate (nv l) (tbl l) v).
+Proof. exact CheckSoundDecomp.D_spec_neg_unate_sound. Qed.
+
+Print Assumptions C06_checker_spec_top_iff_explicit.
+Print Assumptions C06_checker_spec_top_sound.
+Print Assumptions C06_checker_spec_top_complete.
+Print Assumptions C06_checker_D_spec_top_sound.
+Print Assumptions C06_checker_D_spec_top_complete.
+Print Assumptions C06_checker_decomp_eqb_iff.
+Print Assumptions C06_checker_decomp_check_model.
+Print Assumptions C06_checker_spec_pos_unate_iff.
+Print Assumptions C06_checker_spec_neg_unate_iff.
+Print Assumptions C06_checker_spec_pos_unate_sound.
+Print Assumptions C06_checker_spec_neg_unate_sound.
+Print Assumptions C06_checker_spec_pos_unate_complete.
+Print Assumptions C06_checker_spec_neg_unate_complete.
+Print Assumptions C06_checker_D_spec_pos_unate_sound.
+Print Assumptions C06_checker_D_spec_neg_unate_sound.
